@@ -147,7 +147,14 @@ func canonBin(t *Term) *Term {
 			}
 		}
 	}
-	if signed && (t.Name == "+" || t.Name == "-") {
+	// W − LeadingZeros(x) = Len(x)
+	if t.Name == "-" && r.Op == "call" && r.Name == "math/bits.LeadingZeros" {
+		if w, ok := isConstInt(l); ok && w.Int64() == int64(WordBits) {
+			return &Term{Op: "call", Name: "math/bits.Len", V: t.V, Args: r.Args}
+		}
+	}
+	// sums are sorted and flattened; the ring identities used hold modulo 2^n as well, so unsigned values qualify
+	if t.Name == "+" || t.Name == "-" || t.Name == "*" {
 		if c := canonLinearVal(t); c != nil {
 			return c
 		}
@@ -419,6 +426,17 @@ func canonBitTest(t *Term) *Term {
 	}
 	l, r := t.Args[0], t.Args[1]
 	rc, isC := isConstInt(r)
+	// ^x ⋚ c  →  x ⋚ ^c (in the width of x)
+	if isC && l.Op == "un" && l.Name == "^" && len(l.Args) == 1 {
+		if bits, signed, ok := intKind(termType(l)); ok && !signed {
+			if bits == 0 {
+				bits = WordBits
+			}
+			m := new(big.Int).Sub(new(big.Int).Lsh(big.NewInt(1), uint(bits)), big.NewInt(1))
+			nc := new(big.Int).Xor(new(big.Int).And(rc, m), m)
+			return &Term{Op: "bin", Name: t.Name, V: t.V, Args: []*Term{l.Args[0], mkConst(nc, r.V)}}
+		}
+	}
 	if !isC || l.Op != "bin" || l.Name != "&" {
 		return t
 	}
@@ -485,7 +503,11 @@ type linear struct {
 	coef  map[string]*big.Int
 	atoms map[string]*Term
 	k     *big.Int
+	ring  bool // value context: unsigned operands are linearised too (identities of the ring Z/2^n)
 }
+
+// WordBits is the size of int/uint of the loaded configuration (set by Load).
+var WordBits = 64
 
 func newLinear() *linear {
 	return &linear{coef: map[string]*big.Int{}, atoms: map[string]*Term{}, k: new(big.Int)}
@@ -497,6 +519,9 @@ func (ln *linear) add(t *Term, c *big.Int) {
 		return
 	}
 	_, signed, isInt := intKind(termType(t))
+	if ln.ring {
+		signed = true
+	}
 	if t.Op == "bin" && isInt && signed {
 		switch t.Name {
 		case "+":
@@ -689,7 +714,14 @@ var _ ssa.Value
 // canonLinearVal rewrites a signed sum into Σ(+atoms) − Σ(−atoms) ± k with
 // sorted atoms, so `243-(s-1)`, `243-s+1` and `244-s` are one term.
 func canonLinearVal(t *Term) *Term {
+	if t.Name == "*" {
+		// only products by a constant of a sum are worth distributing
+		if _, ok := isConstInt(t.Args[1]); !ok || t.Args[0].Op != "bin" || (t.Args[0].Name != "+" && t.Args[0].Name != "-") {
+			return nil
+		}
+	}
 	ln := newLinear()
+	ln.ring = true
 	ln.add(t, big.NewInt(1))
 	var pos, neg []string
 	for k, c := range ln.coef {
